@@ -296,6 +296,7 @@ void World::server_handle(VFd &s, bool tcp, const std::string &wire, size_t stre
   tx.id = (int)txs.size(); tx.t = now_us; tx.fd = s.fd; tx.server = s.server_idx; tx.tcp = tcp; tx.wire = wire;
   tx.api_seq = api_seq; tx.cb_depth = cb_depth; tx.stream_off = stream_off; tx.seq = seq; tx.src_ip = s.local.ipstr();
   tx.deferred = !tcp && next_tx_deferred;
+  tx.order_unknown = !tcp && next_tx_order_unknown;
   tx.lseq = tx.deferred ? next_tx_lseq : seq;
   tx.decode_err = decode(wire, tx.msg, &tx.trailing);
   if (tx.decode_err.find("name longer than 255") != std::string::npos) {
